@@ -21,7 +21,13 @@ BodyBytes(m) == CASE m.body \in {"none", "cl0"} -> ""
                   [] m.body = "ch0" -> ""
 Len_(s) == CASE s = "" -> 0 [] s = "a\r\nb\nc: d\r\n\r\nzz" -> 15 [] s = "hello" -> 5 [] s = "he\r\nllo w" -> 9 [] s = "0\r\n\r\nXY" -> 7
 Dec(n) == CASE n = 0 -> "0" [] n = 15 -> "15" [] n = 5 -> "5" [] n = 9 -> "9" [] n = 7 -> "7"
-Start(m) == IF Kind = "req" THEN m.method \o " /p/q?x=1 HTTP/" \o m.ver ELSE "HTTP/" \o m.ver \o " 200 OK"
+Reason(st) == CASE st = "200" -> "OK" [] st = "204" -> "No Content" [] st = "304" -> "Not Modified"
+Start(m) == IF Kind = "req" THEN m.method \o " /p/q?x=1 HTTP/" \o m.ver ELSE "HTTP/" \o m.ver \o " " \o m.status \o " " \o Reason(m.status)
+\* interim 100 Continue responses (with or without header fields) may precede a response
+Pre(m) == CASE m.pre = "none" -> <<>>
+            [] m.pre = "100" -> <<"HTTP/1.1 100 Continue", Eol(m), Eol(m)>>
+            [] m.pre = "100h" -> <<"HTTP/1.1 100 Continue", Eol(m), "X-Interim: 1", Eol(m), Eol(m), "HTTP/1.1 100 Continue", Eol(m), Eol(m)>>
+NoBodyStatus(m) == Kind = "resp" /\ m.status \in {"204", "304"}
 ConnHdr(m) == IF m.conn = "none" THEN <<>> ELSE <<"Connection: " \o m.conn, Eol(m)>>
 Extra(m) == IF m.hdrs = 0 THEN <<>> ELSE <<"X-One: 1", Eol(m), "x-two: a: b ;c", Eol(m)>>
 Framing(m) == CASE m.body \in {"none", "close"} -> <<>>
@@ -33,22 +39,26 @@ Chunks(m) == CASE m.body = "ch1" -> <<"5", "\r\n", "hello", "\r\n", "0", "\r\n",
                [] m.body = "ch2t" -> <<"3", "\r\n", "0\r\n", "\r\n", "4", "\r\n", "\r\nXY", "\r\n", "0", "\r\n", "T-One: v1", Eol(m), "T-Two: v2", Eol(m), Eol(m)>>
                [] m.body = "ch0" -> <<"0", "\r\n", Eol(m)>>
                [] OTHER -> <<>>
-Tokens(m) == <<Start(m), Eol(m), "Host: h", Eol(m)>> \o ConnHdr(m) \o Extra(m) \o Framing(m) \o <<Eol(m)>>
+Tokens(m) == Pre(m) \o <<Start(m), Eol(m), "Host: h", Eol(m)>> \o ConnHdr(m) \o Extra(m) \o Framing(m) \o <<Eol(m)>>
              \o (IF m.body \in {"cl", "close"} THEN <<BodyBytes(m)>> ELSE Chunks(m))
 IsChunked(m) == m.body \in {"ch1", "ch2x", "ch2t", "ch0"}
 \* persistence decision (checkPersisted of Requestant / Respondent)
 Persisted(m) == IF m.ver = "1.1"
-                THEN m.conn # "close" /\ ~(Kind = "resp" /\ m.body \in {"none", "close"})     \* no length and not chunked: until close
+                THEN m.conn # "close" /\ ~(Kind = "resp" /\ m.body \in {"none", "close"} /\ ~NoBodyStatus(m))  \* no length and not chunked: until close
                 ELSE m.conn = "keep-alive"
 Expect(m) == [ver |-> m.ver, body |-> BodyBytes(m), chunked |-> IsChunked(m),
               nhdr |-> 1 + (IF m.conn = "none" THEN 0 ELSE 1) + m.hdrs + (IF m.body \in {"none", "close"} THEN 0 ELSE 1),
               trails |-> (m.body = "ch2t"), parms |-> (m.body = "ch2x"), persisted |-> Persisted(m), errored |-> FALSE,
-              untilclose |-> (Kind = "resp" /\ m.body \in {"none", "close"})]
+              untilclose |-> (Kind = "resp" /\ m.body \in {"none", "close"} /\ ~NoBodyStatus(m))]
 Msgs == [method : (IF Kind = "req" THEN (IF Restrict THEN {"POST"} ELSE {"GET", "POST"}) ELSE {"-"}), ver : Vers, eol : {"CRLF", "LF"},
          conn : (IF Restrict THEN {"none", "close"} ELSE {"none", "close", "keep-alive"}), hdrs : (IF Restrict THEN {0} ELSE {0, 2}),
-         body : Bodies]
+         body : Bodies,
+         status : (IF Kind = "resp" /\ ~Restrict THEN {"200", "204", "304"} ELSE {"200"}),
+         pre : (IF Kind = "resp" THEN (IF Restrict THEN {"none", "100"} ELSE {"none", "100", "100h"}) ELSE {"none"})]
 \* a message read until the connection closes can only be the last one of a pipeline
-OkPipe(p) == \A i \in 1..(Len(p) - 1) : ~Expect(p[i]).untilclose
+\* a 204 / 304 response has no body whatever its header fields say: only generated without one
+OkMsg(m) == m.status = "200" \/ m.body = "none"
+OkPipe(p) == (\A i \in 1..(Len(p) - 1) : ~Expect(p[i]).untilclose) /\ (\A i \in DOMAIN p : OkMsg(p[i]))
 Init == pipe \in {p \in UNION {[1..k -> Msgs] : k \in 1..MaxPipe} : OkPipe(p)} /\ done = FALSE
 Next == ~done /\ done' = TRUE /\ UNCHANGED pipe
 Spec == Init /\ [][Next]_vars
